@@ -96,6 +96,7 @@ impl Ctx {
         self.add("fault.short_transfer", f.short);
         self.add("fault.interrupted", f.interrupted);
         self.add("fault.hard", f.hard);
+        self.add("fault.premature_eof", f.eof);
     }
     pub fn faults_fired(&self) -> u64 {
         self.counters
